@@ -543,7 +543,8 @@ def fn_text(p, fid):
     return render_fn(p, fid, ctx, [])
 
 
-def refs_of(p, fid):
+def refs_of(p, fid, runtime=False):
+    """Functions that fid refers to (runtime=True: only those it actually calls when it runs)."""
     out = []
     for s in p["fns"][fid]["stmts"]:
         for a in s.get("args", []):
@@ -551,7 +552,7 @@ def refs_of(p, fid):
                 out.append(a["fn"])
         if s["k"] in ("call", "keep", "ref"):
             out.append(s["fn"])
-        if s["k"] in ("method", "clsattr"):
+        if s["k"] == "method" or (s["k"] == "clsattr" and not runtime):
             # a class is one unit: a function that refers to it depends on everything its body refers to
             c = p["classes"][s["cls"]]
             if c.get("calls"):
@@ -559,7 +560,7 @@ def refs_of(p, fid):
     return out
 
 
-def reach(p, fid):
+def reach(p, fid, runtime=False):
     seen = []
     todo = [fid]
     while todo:
@@ -567,7 +568,7 @@ def reach(p, fid):
         if x in seen:
             continue
         seen.append(x)
-        todo += refs_of(p, x)
+        todo += refs_of(p, x, runtime)
     return seen
 
 
